@@ -23,6 +23,9 @@ import time
 import traceback
 
 ROOT = os.path.dirname(os.path.dirname(os.path.abspath(__file__)))
+# scratch runs (sensitivity studies against a modified copy of the repository) write their
+# evidence / replays elsewhere so that the committed evidence only ever comes from /repo
+OUT = os.environ.get("VERIF_OUT") or ROOT
 DEPS = os.path.join(ROOT, ".deps")
 if os.path.isdir(DEPS) and DEPS not in sys.path:
     sys.path.append(DEPS)
@@ -253,7 +256,7 @@ def matches_known(f, known):
 
 
 def write_replay(pid, f):
-    d = os.path.join(ROOT, "replays", pid)
+    d = os.path.join(OUT, "replays", pid)
     os.makedirs(d, exist_ok=True)
     body = json.dumps(f, indent=1, sort_keys=True, default=repr)
     name = hashlib.sha1(body.encode()).hexdigest()[:12] + ".json"
@@ -452,8 +455,8 @@ def main(argv=None):
     except BaseException as e:  # noqa: BLE001
         print(f"HARNESS ERROR: evidence does not validate: {e}")
         return 2
-    os.makedirs(os.path.join(ROOT, "evidence"), exist_ok=True)
-    with open(os.path.join(ROOT, "evidence", f"{pid}.json"), "w") as fh:
+    os.makedirs(os.path.join(OUT, "evidence"), exist_ok=True)
+    with open(os.path.join(OUT, "evidence", f"{pid}.json"), "w") as fh:
         json.dump(ev, fh, indent=1, sort_keys=True, default=repr)
     print(
         f"{pid} tier={tier} seed={seed} evaluations={ev['coverage']['evaluations']} "
